@@ -286,6 +286,27 @@ def pipeline_contract(cfg):
         c.ghost("m1_%d" % p, "bool", False, lambda f, p=p: emitted_now(f)[p])          # exact-rule decision, one cycle ago
         c.ghost("m2_%d" % p, "bool", False, lambda f, p=p: f.g["m1_%d" % p])
 
+    impl = cfg.get("rule") == "implemented"
+
+    def impl_now(f):
+        """the extended rule AS IMPLEMENTED (characterisation, see known finding C20-extended-overlap-check-window): the
+        'actually sent' flags are recomputed every cycle over the two-cycle window [previous cycle, this cycle] only"""
+        v1 = [f.g["v1_%d" % q] for q in range(n)]
+        hist = []
+        for i in range(n):
+            hist.append(And(v1[i], Not(Or(*hist[max(0, i - prev):i])) if hist[max(0, i - prev):i] else True))
+        out = []
+        for p_, a in enumerate(ads):
+            before = hist[n + p_ - prev:n + p_]
+            e = And(f.b(a.valid), Not(Or(*before)) if before else True)
+            hist.append(e)
+            out.append(e)
+        return out
+    if impl:
+        for p in range(n):
+            c.ghost("i1_%d" % p, "bool", False, lambda f, p=p: impl_now(f)[p])
+            c.ghost("i2_%d" % p, "bool", False, lambda f, p=p: f.g["i1_%d" % p])
+
     def basic_allowed(f, p, which):
         """documented basic rule: no DFI command on the previous span-1 phases (of that cycle / the one before)"""
         cur = [f.g["v%d_%d" % (which, q)] for q in range(n)]
@@ -308,7 +329,9 @@ def pipeline_contract(cfg):
         for p in range(n):
             g1 = f.g["cs1_%d" % p] if kind == "cs" else f.g["ca1_%d_%d" % (p, bit)]
             g2 = f.g["cs2_%d" % p] if kind == "cs" else f.g["ca2_%d_%d" % (p, bit)]
-            if ext:
+            if impl:
+                en1, en2 = f.g["i1_%d" % p], f.g["i2_%d" % p]
+            elif ext:
                 en1, en2 = f.g["m1_%d" % p], f.g["m2_%d" % p]
             else:
                 en1 = And(basic_allowed(f, p, 1))
@@ -333,7 +356,9 @@ def pipeline_contract(cfg):
     def masked(f, p, which, kind, bit=None):
         width = W if kind == "cs" else CW
         g = f.g["cs%d_%d" % (which, p)] if kind == "cs" else f.g["ca%d_%d_%d" % (which, p, bit)]
-        if ext:
+        if impl:
+            en = f.g["i%d_%d" % (which, p)]
+        elif ext:
             en = f.g["m%d_%d" % (which, p)]
         else:
             en = f.g["b%d_%d" % (which, p)]
@@ -486,7 +511,7 @@ PIPE_CFGS_BASE = [
     dict(nphases=4, cs_ser_width=4, ca_ser_width=8, ca_nbits=7, cs_bits=2, ca_cycles=4, span=2),                 # LPDDR5-like DDR CA
     dict(nphases=8, cs_ser_width=8, ca_ser_width=8, ca_nbits=6, cs_bits=4, ca_cycles=4, span=4, extended=True),
 ]
-PIPE_CFGS = PIPE_CFGS_BASE + [_r(x) for x in PIPE_CFGS_BASE]
+PIPE_CFGS = PIPE_CFGS_BASE + [_r(x) for x in PIPE_CFGS_BASE] + [dict(PIPE_CFGS_BASE[2], rule="implemented")]
 
 
 def tasks(tier):
